@@ -159,6 +159,29 @@ def shard_skew(sh, part):
         if rng.random() < 0.5:
             Y = np.where(nprng.random(n) < 0.1, nprng.integers(0, 5, n), Y).astype(np.int32)
         observe_pair(sh, est, Y, X, 'many-strata-with-singletons', sample=True)
+    if part == 2 or sh.tier == 'thorough':
+        # high cardinality on both sides at the top of the stated range: (#distinct X) * (#distinct Y) beyond 2^31 (a packed
+        # (stratum, class) cell index no longer fits 32 bits), most X values singletons, a few heavy strata carrying the structure
+        n = 1000000
+        ns = rng.choice([700000, 800000, 900000])
+        nheavy = rng.choice([10, 40, 200])
+        ncls = rng.choice([3200, 4000, 5000])          # 700000 * 3200 > 2^31
+        X = np.empty(n, dtype=np.int32)
+        X[:ns] = np.arange(ns, dtype=np.int32) + 1000
+        heavy = nprng.integers(0, nheavy, n - ns)
+        # the heavy strata carry the largest codes (their dense positions come after all the singletons) - or, sometimes in the thorough tier, the smallest
+        X[ns:] = heavy if (sh.tier == 'thorough' and rng.random() < 0.3) else (1 << 20) - 1 - heavy
+        Y = nprng.integers(0, ncls, n).astype(np.int32)
+        per = max(1, ncls // nheavy)
+        Y[ns:] = (heavy * per + nprng.integers(0, per, n - ns)).astype(np.int32)      # inside a heavy stratum only `per` classes occur
+        perm = nprng.permutation(n)
+        X, Y = X[perm], Y[perm]
+        mi = oracles.plugin_mi(Y, X)
+        ok, got = sh.call('plugin-mi', 'estimator', est, Y, X)
+        if ok:
+            sh.check('plugin-mi', oracles.close32(got, mi), 'score!=plugin-mi', lambda: {'got': got, 'model_mi': mi, 'n': n, 'distinct_X': int(ns + nheavy), 'distinct_Y': int(len(np.unique(Y))),
+                                                                                       'cls': 'cardinality-product>2^31', 'X': X[:40], 'Y': Y[:40]})
+            sh.case(('card-product', ns, nheavy, ncls), True, 'cardinality-product>2^31', sample={'n': n, 'distinct_X': int(ns + nheavy), 'distinct_Y': int(ncls), 'score': got, 'model': mi})
     if part == 1 or sh.tier == 'thorough':
         # more than 2^16 distinct classes on one side
         n = 70000
